@@ -323,5 +323,7 @@ MUTANTS = [
     M("drop-size-restore", CM, "BaseImage._renderer", "            if isinstance(_size, Size):\n                self.size = _size\n", "            pass\n", {"R4"}),
     M("anim-handler-raises", RN, "Renderable._animate_", "        except KeyboardInterrupt:\n            pass\n", "        except KeyboardInterrupt:\n            raise\n", {"R5"}),
     M("still-swallows", RN, "Renderable.draw", "                        render_data, real_render_args, output\n                    )\n                    raise\n", "                        render_data, real_render_args, output\n                    )\n", {"R5"}),
+    M("sgr-reset-on-tty-only", CM, "BaseImage.draw", "print(SGR_DEFAULT, SHOW_CURSOR * sys.stdout.isatty(), sep=\"\")", "print((SGR_DEFAULT + SHOW_CURSOR) * sys.stdout.isatty(), end=\"\")", {"R1"}),
+    M("sgr-reset-under-test", CM, "BaseImage.draw", "                print(SGR_DEFAULT, SHOW_CURSOR * sys.stdout.isatty(), sep=\"\")", "                if animation:\n                    print(SGR_DEFAULT, SHOW_CURSOR * sys.stdout.isatty(), sep=\"\")", {"R1"}),
     M("twin-hook-order", KT, "KittyImage._handle_interrupted_draw", "ctlseqs.ST * 2 + ctlseqs.KITTY_END_CHUNKED", "2 * ctlseqs.ST + ctlseqs.KITTY_END_CHUNKED", twin=True),
 ]
